@@ -663,9 +663,14 @@ func lightDecode(t *core.T, name string, src []byte) {
 			return
 		}
 		t.Protect("deep:Policy.MarshalCedar", in, func() { _ = p.MarshalCedar() })
+		t.Protect("deep:Policy.MarshalJSON", in, func() { _, _ = p.MarshalJSON() })
 	case strings.HasPrefix(name, "json-entity"):
 		var e types.Entity
-		t.Protect("deep:Entity.UnmarshalJSON", in, func() { _ = json.Unmarshal(src, &e) })
+		var err error
+		if t.Protect("deep:Entity.UnmarshalJSON", in, func() { err = json.Unmarshal(src, &e) }) || err != nil {
+			return
+		}
+		t.Protect("deep:Entity.MarshalJSON", in, func() { _, _ = json.Marshal(e) })
 	case strings.HasPrefix(name, "json-value"):
 		var v types.Value
 		var err error
@@ -673,6 +678,8 @@ func lightDecode(t *core.T, name string, src []byte) {
 			return
 		}
 		t.Protect("deep:Value.Equal", in, func() { _ = v.Equal(v) })
+		t.Protect("deep:Value.MarshalCedar", in, func() { _ = v.MarshalCedar(); _ = v.String() })
+		t.Protect("deep:Value.MarshalJSON", in, func() { _, _ = json.Marshal(v) })
 	case strings.HasPrefix(name, "schema-text"):
 		var s schema.Schema
 		var err error
@@ -680,6 +687,8 @@ func lightDecode(t *core.T, name string, src []byte) {
 			return
 		}
 		t.Protect("deep:Schema.Resolve", in, func() { _, _ = s.Resolve() })
+		t.Protect("deep:Schema.MarshalCedar", in, func() { _, _ = s.MarshalCedar() })
+		t.Protect("deep:Schema.MarshalJSON", in, func() { _, _ = s.MarshalJSON() })
 	case strings.HasPrefix(name, "schema-json"):
 		var s schema.Schema
 		var err error
@@ -687,6 +696,8 @@ func lightDecode(t *core.T, name string, src []byte) {
 			return
 		}
 		t.Protect("deep:Schema.Resolve", in, func() { _, _ = s.Resolve() })
+		t.Protect("deep:Schema.MarshalCedar", in, func() { _, _ = s.MarshalCedar() })
+		t.Protect("deep:Schema.MarshalJSON", in, func() { _, _ = s.MarshalJSON() })
 	}
 }
 
